@@ -82,6 +82,17 @@ class Prop(PoolProp):
     def cfg_from_json(self, d):
         return SCfg(**d)
 
+    def cover_cfgs(self, tier):
+        # every reachable transition of the model: a writer, a concurrent reader and the final inspection; two writers storing
+        # out of order next to a reader; a clash of two stores on one identifier with a pre-sized index
+        fin = [["iter"], ["len"], ["contig"]]
+        cfgs = [SCfg(0, [[["store", 0, 1]], [["read", 0]], fin]),
+                SCfg(2, [[["store", 1, 1]], [["store", 1, 2]], [["contig"], ["read", 1]]])]
+        if tier == "thorough":
+            cfgs += [SCfg(0, [[["store", 0, 1], ["store", 1, 2]], [["read", 0], ["read", 1]], fin], buffered=True),
+                     SCfg(0, [[["store", 1, 1]], [["store", 0, 2]], [["read", 1], ["len"]], fin + [["read", 0]]])]
+        return cfgs
+
     def corpus(self):
         return [
             (SCfg(0, [[["store", 0, 1], ["store", 5, 2], ["store", 2, 3]], [["read", 5], ["read", 5], ["read", 2], ["read", 1]],
